@@ -1,6 +1,7 @@
 (* C03 - Only genuine current-round responses can complete a probe.
    Model: TV.Core.Strategy.recv_response / TracerState.complete_probe (with the guard that a sequence
    not yet issued in this round is never completed - the repaired behaviour). *)
+From TV Require Import Tui.TraceId Proofs.TraceIdProofs.
 From TV Require Import Base.Result Core.Types Core.TracerState Core.Strategy Core.Builder
   Proofs.StrategyInv Proofs.StrategyProps.
 
@@ -39,3 +40,28 @@ Qed.
 (* another tracer instance: a different non-zero trace identifier is rejected *)
 Theorem c03_foreign_trace_id : forall c tid, tid <> 0 -> tid <> trace_identifier c -> check_trace_id c tid = false.
 Proof. exact c03_foreign_trace_id_lemma. Qed.
+
+(* ---- several tracers of one process (trippy-tui app.rs start_tracers, after the repair of F7) ----
+   The identifier of the tracer at index i is never zero (zero in a response is accepted by every tracer),
+   fits u16, differs between any two of up to 65534 tracers, is pid + i whenever that is a legal identifier,
+   and therefore each tracer rejects the ICMP responses carrying any other tracer's identifier. *)
+Theorem c03_trace_identifiers : forall pid i j, 0 <= i < j -> j < 65535 ->
+  1 <= trace_identifier_for pid i <= 65535 /\ trace_identifier_for pid i <> trace_identifier_for pid j.
+Proof. intros pid i j Hi Hj. split; [apply tid_range|apply tid_distinct; assumption]. Qed.
+
+Theorem c03_trace_identifier_is_pid_plus_i : forall pid i, 0 <= pid < 65535 -> 0 <= i < 65535 -> 0 < pid + i <= 65535 ->
+  trace_identifier_for pid i = pid + i.
+Proof. intros pid i Hp Hi Hs. apply tid_unchanged; lia. Qed.
+
+Theorem c03_tracers_isolated : forall c pid i j, trace_identifier c = trace_identifier_for pid i ->
+  0 <= i < 65535 -> 0 <= j < 65535 -> i <> j -> check_trace_id c (trace_identifier_for pid j) = false.
+Proof. intros c pid i j Hc Hi Hj Hne. apply (tid_isolation c pid i j Hc); lia. Qed.
+
+(* F7, the pinned assignment pid + i: identifier 0 for pid 0 (accepted by EVERY tracer), overflow for pid 65534 and 2 targets *)
+Theorem c03_pinned_trace_identifier_refuted :
+  pinned_trace_identifier_for 0 0 = Ok 0 /\ (forall c, check_trace_id c 0 = true) /\
+  pinned_trace_identifier_for 65534 2 = Fault Overflow.
+Proof.
+  split; [reflexivity|]. split; [|reflexivity].
+  intros c. unfold check_trace_id. rewrite Z.eqb_refl. apply Bool.orb_true_r.
+Qed.
